@@ -947,6 +947,7 @@ class Entry:
     max_paths: int = 512
     preset: Dict[str, Any] = field(default_factory=dict)     # attribute values of self known at entry
     not_none: Tuple[str, ...] = ("self.name",)               # leaves assumed not None (no fork on them)
+    nonstatic: Tuple[str, ...] = ()                          # parameters whose tests are kept as residual guards
 
     def label(self):
         if self.kind == "init":
@@ -997,7 +998,8 @@ def _run_once(project, entry: Entry, config: Config) -> Run:
         for p in a.posonlyargs + a.args + a.kwonlyargs:
             if p.arg in names:
                 env[p.arg] = ("sym", p.arg)
-                it.static_syms.add(p.arg)
+                if p.arg not in entry.nonstatic:
+                    it.static_syms.add(p.arg)
                 if p.arg in entry.param_types:
                     it.symtypes[p.arg] = entry.param_types[p.arg]
                 elif p.annotation is not None:
@@ -1031,7 +1033,8 @@ def _run_once(project, entry: Entry, config: Config) -> Run:
         env = {}
         for p in fn.args.posonlyargs + fn.args.args + fn.args.kwonlyargs:
             env[p.arg] = ("sym", p.arg)
-            it.static_syms.add(p.arg)
+            if p.arg not in entry.nonstatic:
+                it.static_syms.add(p.arg)
             if p.arg in entry.param_types:
                 it.symtypes[p.arg] = entry.param_types[p.arg]
             elif p.annotation is not None:
